@@ -610,7 +610,8 @@ def check_pgraph(ctx, case, res):
 
 
 FSODD = ['symlink-to-dotless', 'symlink-to-dotless-child', 'input-no-extension', 'input-is-directory', 'empty-file', 'dangling-symlink', 'symlink-loop', 'parent-is-directory',
-         'only-dots-name', 'unreadable', 'whitespace-only', 'parent-dotless', 'bom']
+         'only-dots-name', 'unreadable', 'whitespace-only', 'parent-dotless', 'bom', 'symlink-self-parent', 'symlink-self-parent-3', 'big-then-fail-yaml', 'big-then-fail-json',
+         'big-then-fail-toml', 'big-ok']
 
 
 def check_fsodd(ctx, case, res):
@@ -659,12 +660,30 @@ def check_fsodd(ctx, case, res):
             w('settings', 'b: 1\n')
         elif odd == 'bom':
             w('app.yaml', '\ufeffa: 1\n')
+        elif odd == 'symlink-self-parent':
+            w('app.b.yaml', 'x: 1\n')
+            os.symlink('app.b.yaml', os.path.join(d, 'app.yaml'))       # app.b.yaml inherits from app.*, which is itself
+            inp = 'app.b.yaml'
+        elif odd == 'symlink-self-parent-3':
+            w('app.b.c.yaml', 'x: 1\n')
+            os.symlink('app.b.c.yaml', os.path.join(d, 'app.b.yaml'))
+            w('app.yaml', 'y: 1\n')
+            inp = 'app.b.c.yaml'
+        elif odd.startswith('big-'):
+            big = 'x' * 150000
+            ext = odd.rsplit('-', 1)[-1] if odd != 'big-ok' else 'yaml'
+            second = {'name': '$required'} if odd != 'big-ok' else {'name': 'ok'}
+            inp = 'app.' + ext
+            w(inp, ser.write(ext, [{'blob': big, 'n': 1}, second], None, 'quoted'))
         res.nontrivial = True
         res.labels.add('fsodd:' + odd)
-        for tool, argv in (('bkl', ['-f', 'json', inp]), ('bklr', ['-f', 'json', inp]), ('bkld', ['-f', 'json', inp, inp]), ('bkli', ['-f', 'json', inp, inp])):
-            r = cli([ctx.bin(tool)] + argv, cwd=d)
+        tools = (('bkl', ['-f', 'json', inp]), ('bklr', ['-f', 'json', inp]), ('bkld', ['-f', 'json', inp, inp]), ('bkli', ['-f', 'json', inp, inp]))
+        if odd.startswith('big-'):
+            tools = (('bkl', ['-f', 'json', inp]), ('bkl', ['-f', 'yaml', inp]), ('bkl', ['-f', 'toml', inp]), ('bkl', [inp]))
+        for tool, argv in tools:
+            r = cli([ctx.bin(tool)] + argv, cwd=d, budget=200000 if 'self-parent' in odd else 2000000)
             res.execs += 1
-            if not judge_cli(res, r, '%s on %s' % (tool, odd), 'json', detail={'odd': odd}):
+            if not judge_cli(res, r, '%s on %s' % (tool, odd), None if odd.startswith('big-') else 'json', must_fail=odd.startswith('big-then-fail'), detail={'odd': odd}):
                 return res
         resp = ctx.call([{'op': 'merge_layers', 'path': os.path.join(d, inp)}, {'op': 'output', 'format': 'json'}], res)
         judge_lib(res, resp, 'library on %s' % odd, False, {'odd': odd})
